@@ -17,13 +17,17 @@ from .common import canon, chunks
 NCPU = os.cpu_count() or 4
 
 
+def _safe(label: str) -> str:
+    return "".join(ch if ch.isalnum() or ch in "-_." else "_" for ch in label)
+
+
 def model_check(chk, module, constants, invariants, *, wd, label, init="Init", next_="Next",
                 properties=(), constraint=None, timeout=3000, coverage=False, workers="auto",
                 simulate=None, depth=None, seed=None, expect_actions=()):
     cfg = tlc.cfg_text(constants, invariants=invariants, properties=properties, init=init,
                        next_=next_, constraint=constraint)
     res = tlc.run(module, cfg, workdir=wd, timeout=timeout, coverage=coverage, workers=workers,
-                  simulate=simulate, depth=depth, seed=seed, tag=label)
+                  simulate=simulate, depth=depth, seed=seed, tag=_safe(label))
     chk.add_tlc(res, label)
     if res.violated:
         chk.violation({"stage": "A", "module": module, "constants": constants,
@@ -42,7 +46,7 @@ def expect_violation(module, constants, invariants, *, wd, label, init="Init", n
     """Negative configuration: TLC MUST report a violation (of `expected` if given)."""
     cfg = tlc.cfg_text(constants, invariants=invariants, init=init, next_=next_,
                        properties=properties)
-    res = tlc.run(module, cfg, workdir=wd, timeout=timeout, tag=label)
+    res = tlc.run(module, cfg, workdir=wd, timeout=timeout, tag=_safe(label))
     ok = res.violated is not None and (expected is None or res.violated in expected)
     return ok, res
 
@@ -58,7 +62,7 @@ def emit_cases(chk, module, constants, *, wd, label, invariants=("EmitDone",), i
         consts.update({"Emit": True, "NSlices": nslices, "Slice": sl})
         cfg = tlc.cfg_text(consts, invariants=invariants, init=init, next_=next_,
                            constraint=constraint)
-        return tlc.run(module, cfg, workdir=wd, workers=1, timeout=timeout, tag=f"{label}-s{sl}",
+        return tlc.run(module, cfg, workdir=wd, workers=1, timeout=timeout, tag=_safe(f"{label}-s{sl}"),
                        simulate=simulate, depth=depth,
                        seed=None if seed is None else seed + sl, heap="3g")
 
@@ -85,14 +89,14 @@ def validate_traces(chk, module, traces, *, wd, label, batch=400, timeout=3000, 
 
     def one(args):
         k, b = args
-        path = wd.file(f"{label}-{k}.json")
+        path = wd.file(_safe(f"{label}-{k}") + ".json")
         with open(path, "w") as f:
             json.dump(b, f)
         cfg = tlc.cfg_text(None, init="Init", next_="Next")
         env = {"TRACE_FILE": path}
         env.update(extra_env or {})
         res = tlc.run(module, cfg, workdir=wd, workers=1, env=env, timeout=timeout,
-                      tag=f"{label}-{k}", heap="3g", dfs=dfs)
+                      tag=_safe(f"{label}-{k}"), heap="3g", dfs=dfs)
         os.remove(path)
         return res
 
